@@ -91,7 +91,7 @@ func Table() map[string]*Property {
 	}
 	oTrusted := []string{"go/parser, go/types on the schematic programs", "gvc Layer G symbolic evaluator and VC generator; z3 4.8.12, z3 5.1.0, cvc5 1.0"}
 	oAssume := []string{
-		"A-int; A-cfg (a hole replaced by a representative of its grammar class parses the same way); A-param (go/types is parametric in opaque named types)",
+		"A-int (machine integers are mathematical integers; only a difference of two non-constant signed operands carries a no-overflow obligation); A-cfg (a hole replaced by a representative of its grammar class parses the same way); A-param (go/types is parametric in opaque named types)",
 		"slices and maps of emitted code are modelled as values: aliasing between distinct slice variables that share a backing array is not modelled",
 		"function-typed parameters (predicates, mapped functions) are deterministic, total and do not write the memory the helper works on",
 		"helper functions emitted by other plugins are used by their contracts (equal: EqTop; compare: a total preorder CmpTop with values in {-1,0,1}; contains/keys/set: their own o-ensures)",
@@ -319,7 +319,7 @@ func Table() map[string]*Property {
 		Extra:  func(ctx *Ctx) ([]driver.ObResult, error) { return flatPredConformance(ctx, "equal.canEqual") },
 		Groups: []Group{{Layer: "O", Funcs: []string{"equal.gen.field", "equal.gen.genStatement", "equal.gen.genFunc", "equal.gen.genCurriedFunc"}, Only: semantic}},
 		Assumptions: []string{
-			"A-int; A-cfg (a hole replaced by a representative of its grammar class parses the same way); A-param (go/types is parametric in opaque named types)",
+			"A-int (machine integers are mathematical integers; only a difference of two non-constant signed operands carries a no-overflow obligation); A-cfg (a hole replaced by a representative of its grammar class parses the same way); A-param (go/types is parametric in opaque named types)",
 			"Go == on comparable, reference-free types is structural equality (Go spec); a flat struct containing a named component with its own Equal method is compared with == (accepted reading, DESIGN.md)",
 			"struct field counts, and the number of unexported/imported fields, are enumerated up to 3 (bounded in arity; unbounded in values, nesting depth and component types)",
 			"user Equal methods are total, pure, deterministic, take the type / a pointer to it / an interface, and treat nil receivers structurally",
